@@ -300,6 +300,45 @@ pub fn run_read(out: &mut Out, seed: u64, tier: &str) {
             }
         }
     }
+    // the file's NAME: leading, trailing and inner spaces, in the file name and in a directory name — with another well-formed file
+    // (other atoms) sitting at the name a trimmed path would give. The atoms read are those of the file that was named.
+    let mut n_names = 0usize;
+    {
+        let root = format!("/var/tmp/optrs-verif-scratch/c14-names-{}", std::process::id());
+        let _ = std::fs::remove_dir_all(&root);
+        for (dir, name) in [("", " lead.xyz"), ("", "inner space.xyz"), (" dir", "mol.xyz"), ("dir ", "mol.xyz"), ("a b", " c d.xyz"), ("", "\tlead-tab.xyz"), ("", "trail.xyz")] {
+            let d = if dir.is_empty() { root.clone() } else { format!("{}/{}", root, dir) };
+            let dt = if dir.is_empty() { root.clone() } else { format!("{}/{}", root, dir.trim()) };
+            std::fs::create_dir_all(&d).unwrap(); std::fs::create_dir_all(&dt).unwrap();
+            let path = format!("{}/{}", d, name);
+            let decoy = format!("{}/{}", dt, name.trim());
+            let want = format!("1\n\nHe 1.5 -2.5 3.25\n");
+            if decoy != path { std::fs::write(&decoy, "2\n\nH 0 0 0\nH 0 0 0.74\n").unwrap(); }
+            std::fs::write(&path, &want).unwrap();
+            let syms = symbols();
+            // named by its full path, and (the working directory moved next to it for the moment) by a relative path that begins with
+            // the odd name itself
+            let rel = if dir.is_empty() { name.to_string() } else { format!("{}/{}", dir, name) };
+            let here = std::env::current_dir().ok();
+            let by_rel: Option<Option<(Vec<usize>, Vec<[f64; 3]>)>> = if std::env::set_current_dir(&root).is_ok() {
+                let r = catch(|| XYZFile::read(&rel)).map(|res| res.ok().map(|f| {
+                    (f.atomic_numbers.iter().map(|a| syms.iter().position(|s| s == a.to_atomic_symbol()).unwrap() + 1).collect(),
+                     f.coordinates.iter().map(|p| [p.x, p.y, p.z]).collect()) }));
+                if let Some(h) = &here { let _ = std::env::set_current_dir(h); }
+                r
+            } else { Some(Some((vec![2], vec![[1.5, -2.5, 3.25]]))) };
+            let ok_rel = match &by_rel { Some(Some((zs, xs))) => zs.len() == 1 && zs[0] == 2 && xs[0] == [1.5, -2.5, 3.25], _ => false };
+            if !ok_rel { out.oracle_fail(&format!("a well-formed file named by the relative path {:?} was not read as written (got {})", rel, match &by_rel { None => "an abort".to_string(), Some(r) => show(r) }), &format!("file {:?} (relative to its directory) holding\n{}(another file sits at the trimmed name)", rel, want)); }
+            let got: Option<Option<(Vec<usize>, Vec<[f64; 3]>)>> = catch(|| XYZFile::read(&path)).map(|res| res.ok().map(|f| {
+                (f.atomic_numbers.iter().map(|a| syms.iter().position(|s| s == a.to_atomic_symbol()).unwrap() + 1).collect(),
+                 f.coordinates.iter().map(|p| [p.x, p.y, p.z]).collect()) }));
+            n_names += 1;
+            let ok = match &got { Some(Some((zs, xs))) => zs.len() == 1 && zs[0] == 2 && xs[0] == [1.5, -2.5, 3.25], _ => false };
+            if !ok { out.oracle_fail(&format!("a well-formed file named {:?} was not read as written (got {})", path, match &got { None => "an abort".to_string(), Some(r) => show(r) }), &format!("file {:?} holding\n{}(another file sits at {:?})", path, want, decoy)); }
+        }
+        let _ = std::fs::remove_dir_all(&root);
+    }
+    out.stat("odd_file_names", n_names);
     let _ = &mut corpus;
     out.stat("well_formed_files", wellformed);
     out.stat("corrupted_files", corrupted);
